@@ -307,6 +307,10 @@ func runCheck(pc *PropConfig, tier string, seed int, writeBaseline, verbose bool
 			}
 			continue
 		}
+		// the function itself is part of the baseline, so that a function whose obligations all simplify to
+		// true on the committed tree (and leave no record) is still protected: an obligation of it that fails
+		// later is a regression, not an undecided novelty
+		newBaseline = append(newBaseline, r.Func+"#function-under-contract")
 		var kindRe *regexp.Regexp
 		if j.pf.Kinds != "" {
 			kindRe = regexp.MustCompile("^(" + j.pf.Kinds + "|cover)$")
